@@ -389,6 +389,15 @@ class Lemma:
         d.setdefault('functions', sorted(self.functions))
         if status == FAILED and hasattr(self, 'lines'):
             d.setdefault('emitted', [l.decode('latin1') for l in self.lines][:80])
+        if status == FAILED and (d.get('replay') or {}).get('reproduced') is not True and (clause in ('LEAVES', 'CHILD-DEFEAT', 'PROTECTED') or self.name.startswith('time/')):
+            # time-travel obligations: no model replay (halting continuations); replay on the witness programs with documented behaviour
+            try:
+                from contracts import witness
+                rep = witness.replay_time_cached(self.w, bool(self.unchecked))
+                if rep.get('reproduced') or 'replay' not in d:
+                    d['replay'] = rep
+            except Exception as e:
+                d.setdefault('replay', {'reproduced': None, 'how': f'no replay: {e!r}'})
         self.results.append(Result(f'{self.name}/{clause}', status, backend, time.time() - t0, tuple(props), d))
 
     def prove_all(self, clause, items, props, t0=None):
